@@ -220,11 +220,35 @@ def run(ctx):
                                 arms_ = mm['arms']
                                 ent = [x for x in arms_ if sx.render(x['pat']).startswith('NodeEvent::Enter(')]
                                 lev = [x for x in arms_ if sx.render(x['pat']).startswith('NodeEvent::Leave(')]
-                                if ent and lev and all('depth += 1' in sx.render(x['body']) or 'skip = ' in sx.render(x['body']) for x in ent) \
-                                        and all(sx.render(x['body']).count('depth -= 1') <= 1 for x in lev):
-                                    incs = sum(1 for x in ent if 'depth += 1' in sx.render(x['body']))
-                                    if incs >= len([x for x in ent if 'skip = ' not in sx.render(x['body'])]):
-                                        why = 'depth is incremented on every counted Enter and decremented only on Leave (events are balanced)'
+                                # the counter is decremented on Leave(P) only for node patterns P whose Enter(P) arm increments it (events are
+                                # balanced, Enter(P) precedes Leave(P)): it never goes below its start value
+                                import re as _re
+                                def _pat(x_, ev_):
+                                    t_ = sx.render(x_['pat']).replace(' ', '')
+                                    t_ = t_[len('NodeEvent::%s(' % ev_):-1] if t_.endswith(')') else t_
+                                    if _re.fullmatch(r'\w+|_', t_):
+                                        return '*'
+                                    return _re.sub(r'\((\w+|_)\)$', '', t_)
+                                def _cnt(x_, op_):
+                                    return sum(1 for z_ in sx.walk(x_['body']) if z_.get('k') in ('assign', 'binary') and z_.get('op') == op_ and sx.is_path(z_.get('l_', {})) and sx.lit_int(z_.get('r', {})) == 1)
+                                ctrs_ = {z_['l_']['p'] for x_ in lev for z_ in sx.walk(x_['body']) if z_.get('k') in ('assign', 'binary') and z_.get('op') == '-=' and sx.is_path(z_.get('l_', {}))}
+                                if ent and lev and len(ctrs_) == 1 and not any(x_.get('guard') for x_ in ent + lev):
+                                    kinds_ = {_pat(x_, 'Enter') for x_ in ent} | {_pat(x_, 'Leave') for x_ in lev} | {'*'}
+                                    def _first(arms__, ev_, k_):
+                                        for x_ in arms__:
+                                            p_ = _pat(x_, ev_)
+                                            if p_ == k_ or p_ == '*':
+                                                return x_
+                                        return None
+                                    ok_ = True
+                                    for k_ in kinds_:
+                                        e_, l_ = _first(ent, 'Enter', k_), _first(lev, 'Leave', k_)
+                                        dec_ = _cnt(l_, '-=') if l_ is not None else 0
+                                        inc_ = _cnt(e_, '+=') if e_ is not None else 0
+                                        if dec_ > inc_:
+                                            ok_ = False
+                                    if ok_:
+                                        why = 'the counter is decremented on Leave only for node kinds whose Enter arm increments it (events are balanced)'
                     if crate == 'sv_parser_pp' and b.name.endswith('::origin'):
                         of = pp.methods.get(('PreprocessedText', 'origin'))
                         if of is not None:
